@@ -119,7 +119,7 @@ var zooTypes = []interface{}{
 	zoo.Scalars{}, zoo.Small{}, zoo.Slices{}, zoo.Conts{}, zoo.Derived{}, zoo.CustomHolder{}, zoo.Custom{},
 	zoo.NamedMapHolder{}, zoo.Node{}, zoo.FNode{}, zoo.Ping{}, zoo.Pong{}, zoo.Wide{}, zoo.Five{},
 	zoo.HI{}, zoo.HI8{}, zoo.HI16{}, zoo.HI32{}, zoo.HI64{}, zoo.HU{}, zoo.HU8{}, zoo.HU16{}, zoo.HU32{}, zoo.HU64{},
-	zoo.HF32{}, zoo.HF64{}, zoo.HStr{}, zoo.HBin{}, zoo.HTime{}, zoo.HBool{}, zoo.HPTime{}, zoo.Named{}, zoo.Outer{}, zoo.Interior{}, zoo.Uni{}, zoo.HoldIList{},
+	zoo.HF32{}, zoo.HF64{}, zoo.HStr{}, zoo.HBin{}, zoo.HTime{}, zoo.HBool{}, zoo.HPTime{}, zoo.Named{}, zoo.Outer{}, zoo.Interior{}, zoo.Uni{}, zoo.HoldIList{}, zoo.MapThenLists{}, zoo.EmbPtrNamed{}, zoo.EmbValNamed{},
 }
 
 var topTypes = []interface{}{
@@ -270,6 +270,16 @@ func famC01(e *emitter, g *gen.G, thorough bool) {
 		e.emit("refs/biglist", big)
 		e.emit("refs/mapfield", zoo.BadInMap{M: map[string]interface{}{"x": m1, "y": m1, "l": l1, "l2": l1, "o": o1, "o2": o1}})
 		e.emit("refs/listfield", zoo.BadInList{L: []interface{}{m1, m1, l1, l1, o1, o1}})
+	}
+	// a declared map type in front of repeated list types; embedding a custom-named base; whole-numbered doubles beyond 2^24
+	e.emit("directed/mapthenlists", zoo.MapThenLists{M: zoo.NamedMap{"k": 1}, L1: []int32{1}, L2: []int32{2}, L3: []string{"a"}, L4: []string{"b"}})
+	e.emit("directed/mapthenlists2", []interface{}{zoo.NamedMap{"k": 1}, []int32{1}, zoo.NamedMap{"j": 2}, []int32{2}, []string{"x"}, []int32{3}})
+	e.emit("directed/embptrnamed", &zoo.EmbPtrNamed{PtrNamedBase: &zoo.PtrNamedBase{ID: 4}, X: 5})
+	e.emit("directed/embptrnamed2", []interface{}{&zoo.PtrNamedBase{ID: 1}, zoo.EmbPtrNamed{PtrNamedBase: &zoo.PtrNamedBase{ID: 2}, X: 3}, zoo.EmbValNamed{PtrNamedBase: zoo.PtrNamedBase{ID: 6}, Y: "y"}})
+	for i, f := range []float64{16777216, 16777217, -16777217, 123456789, 2147483647, -2147483648, 4294967297, 33554433} {
+		e.emit(fmt.Sprintf("directed/bigwhole%d", i), zoo.Scalars{F64: f, F32: float32(f)})
+		e.emit(fmt.Sprintf("directed/bigwholetop%d", i), f)
+		e.emit(fmt.Sprintf("directed/bigwholelist%d", i), []float64{f, 1, f})
 	}
 	// code points that code tends to treat specially, in every string position
 	for i, r := range []rune{0xfffd, 0xfeff, 0, 0x7f, 0x85, 0xd7ff, 0xe000, 0xfffe, 0xffff, 0x10ffff} {
